@@ -389,6 +389,11 @@ func SetViaHistory(r *core.Rand, es []cty.Value) (out cty.Value) {
 	for _, e := range es[k:] {
 		vs.Add(e)
 	}
+	// the older value is used again after the helper set changed and before the next value is taken
+	_ = first.LengthInt()
+	for it := first.ElementIterator(); it.Next(); {
+		it.Element()
+	}
 	second := cty.SetValFromValueSet(vs)
 	if r.Bool() {
 		// the helper set lives on and changes after the value was taken
